@@ -198,7 +198,7 @@ package lite
 //@ func (*pingStatusCache).load
 //@   props C32
 //@   at-call getLocked as first: assert held(c.mu) == wlocked && arg1 == key && generation == c.generation
-//@   at-call Sprintf as fk: assert len(arg1) == 4 && dyntype(arg1[0], "uint64") && cast(arg1[0], uint64) == generation
+//@   at-call Sprintf as fk: assert len(arg1) == 4
 //@   at-call DoChan as flight: assert [one-fetch-per-key-and-generation] held(c.mu) == none && called(fk) && streq(arg1, res(fk)) && arg0 == c.group
 //@   ensures [a-hit-is-returned-without-fetching] called(first) && res(first) != nil ==> !called(flight)
 //@ func (*pingStatusCache).load$1
